@@ -164,6 +164,7 @@ void prop_c07(hz::Ctx &ctx) {
 
 // ================================================================= C08
 static std::string check08_unprivileged(int len, int k);
+static std::string check08_mremap_refused(int len, int k, bool *succeeded);
 struct C08Case { int q = 1, delta = 0, mode = 0, cidx = 7, combo = DEFAULT_COMBO, ncalls = 1; bool safe = true; uint64_t seed = 1, poolseed = 1; bool reassemble = false;
   int family = 0;   /* 1: (q*6000 - delta) one-byte nops, then one instruction of the pool, then the tail: probes the growth threshold exactly */
   int chunkv = -1;  /* explicit chunk size (family 1) */ bool split_tail = false; /* the last call is exactly the tail */ bool failfirst = false; /* every call is first tried with a bad line appended */ };
@@ -303,6 +304,12 @@ void prop_c08(hz::Ctx &ctx) {
     if (!ctx.take()) continue; C08Case c; c.family = 2; c.q = q; c.delta = d; c.mode = 1; long long T = 6020 + 6000LL * (q - 1); c.chunkv = (int)(T - 20 - d + j); c.combo = DEFAULT_COMBO; c.ncalls = 1 + (d + j) % 2; c.safe = false; c.seed = (uint64_t)lsel + 5 * (uint64_t)((d * 13 + j + ctx.seed) % 1000); c.poolseed = ctx.seed; c.failfirst = (d + j + lsel) % 5 == 0;
     run(c, "part:overhang-family", false);
   }
+  // one mremap refused during growth: failure, or a complete and executable result
+  { static const int LEN[] = {7000, 13000, 30000, 100000}; for (int li = 0; li < 4; li++) for (int k = 0; k < (ctx.thorough() ? 8 : 2); k++) {
+      if (!ctx.take()) continue; std::string id = "C08M|" + std::to_string(LEN[li]) + "|" + std::to_string(k + (int)(ctx.seed % 7)); if (!ctx.begin(id, "one mremap refused during growth, " + std::to_string(LEN[li]) + " bytes of code")) continue;
+      bool succ = false; std::string why = check08_mremap_refused(LEN[li], k + (int)(ctx.seed % 7), &succ);
+      ctx.cls("part:one-mremap-refused"); ctx.cls(succ ? "refused-mremap:call-succeeded" : "refused-mremap:call-failed"); ctx.nontrivial(id);
+      if (!why.empty()) { hz::Failure f; f.caseid = id; f.text = "library-managed buffer, one mremap refused while " + std::to_string(LEN[li]) + " bytes of code are assembled"; f.symptom = "refused-mremap"; f.detail = why; f.tags = {"mn:growth", "form:internal", "sym:refused-mremap"}; ctx.fail(f); } } }
   // the same in a process without privileges and with an ordinary user's resource limits
   { static const int LEN[] = {3000, 6100, 40000, 70000, 200000, 1000000}; for (int li = 0; li < 6; li++) for (int k = 0; k < (ctx.thorough() ? 6 : 2); k++) {
       if (!ctx.take()) continue; std::string id = "C08U|" + std::to_string(LEN[li]) + "|" + std::to_string(k + (int)(ctx.seed % 5)); if (!ctx.begin(id, "unprivileged process, " + std::to_string(LEN[li]) + " bytes of code")) continue;
@@ -339,8 +346,28 @@ static std::string check08_unprivileged(int len, int k) {
   int x = WEXITSTATUS(st); return x >= 2 && x <= 6 ? WHY[x] : "child status " + std::to_string(x);
 }
 
+// The operating system refuses one mremap() during growth (everything else works).  The call may report the failure; if it reports success -
+// a library is free to get its memory another way - the code must be complete and the region must still be executable (it is called).
+static std::string check08_mremap_refused(int len, int k, bool *succeeded) {
+  if (&alw == nullptr) return "";
+  std::string prog; size_t code = 0; static const char *L[] = {"nop9\n", "nop7\n", "xchg rcx, rcx\n", "nop11\n"}; static const int LL[] = {9, 7, 3, 11};
+  for (int i = 0; code < (size_t)len; i++) { prog += L[(i + k) % 4]; code += LL[(i + k) % 4]; }
+  uint64_t want = 0x1122334455667788ULL + (uint64_t)k * 0x0101010101ULL; char tb[64]; snprintf(tb, sizeof tb, "mov rax, 0x%016llx\nret\n", (unsigned long long)want); prog += tb;
+  al::tight_code(k & 1); assemblyline_t a = asm_create_instance(nullptr, 0); if (!a) return "asm_create_instance(NULL) failed";
+  asm_assemble_str(a, "nop\n");   // the refusal hits a growth, not the creation
+  alw.fail_next_kind = ALW_MREMAP + 1; int rc = asm_assemble_str(a, prog.c_str()); bool consumed = alw.fail_next_kind == 0; alw.fail_next_kind = 0;
+  std::string why;
+  if (rc == EXIT_SUCCESS && consumed) { *succeeded = true;
+    if ((size_t)asm_get_offset(a) != 1 + code + 11) why = "the call returned EXIT_SUCCESS although one mremap was refused, with offset " + std::to_string(asm_get_offset(a)) + " instead of " + std::to_string(1 + code + 11);
+    else { uint64_t got = ((uint64_t(*)(void))asm_get_code(a))(); if (got != want) why = "the code assembled across the refused mremap returns another value when called"; } }
+  else if (rc != EXIT_SUCCESS && rc != EXIT_FAILURE) why = "return value " + std::to_string(rc);
+  asm_destroy_instance(a); al::tight_code(false);
+  return why;
+}
+
 int replay_buf(const std::string &caseid) {
   hz::Ctx ctx;
+  if (caseid.compare(0, 5, "C08M|") == 0) { auto f = split(caseid, '|'); if (f.size() != 3) return 2; bool ok2 = false; std::string why = check08_mremap_refused(atoi(f[1].c_str()), atoi(f[2].c_str()), &ok2); printf("one mremap refused, %s bytes of code: %s\n", f[1].c_str(), why.empty() ? "OK" : ("FAIL " + why).c_str()); return why.empty() ? 0 : 1; }
   if (caseid.compare(0, 5, "C08U|") == 0) { auto f = split(caseid, '|'); if (f.size() != 3) return 2; std::string why = check08_unprivileged(atoi(f[1].c_str()), atoi(f[2].c_str())); printf("unprivileged process, %s bytes of code: %s\n", f[1].c_str(), why.empty() ? "OK" : ("FAIL " + why).c_str()); return why.empty() ? 0 : 1; }
   if (caseid.compare(0, 4, "C07|") == 0) { C07Case c; if (!parse07(caseid, c)) return 2; ctx.seed = c.poolseed; BV v = check07(pool(ctx), c); printf("%s\n", text07(c).c_str()); if (v.ok) { printf("OK\n"); return 0; } printf("FAIL %s : %s\n", v.symptom.c_str(), v.detail.c_str()); return 1; }
   if (caseid.compare(0, 4, "C08|") == 0) { C08Case c; if (!parse08(caseid, c)) return 2; ctx.seed = c.poolseed; GV v = check08(pool(ctx), c); printf("%s\n", text08(c).c_str()); if (v.ok) { printf("OK\n"); return 0; } printf("FAIL %s : %s\n", v.symptom.c_str(), v.detail.c_str()); return 1; }
